@@ -5,7 +5,7 @@ ALL = ["C%02d" % i for i in range(1, 21)]
 # id -> (level, technique, level text, level note, design ref)
 LEDGER_NOTE = "Engine loop, libp2p and kubo are stubbed; epoch outcomes are scripted (drawn scores fed through the real determineNewIdentityState/applyOnState); histories are sampled from a seeded tape, not enumerated."
 CLAIMED = {
- "C01": ("exploration", "deterministic simulation: replicas differing only in map seed/zone/clock skew/restart/rollback history apply the same blocks; byte comparison of roots, next-block parameters, stored diffs",
+ "C01": ("exploration", "deterministic simulation: replicas differing only in map seed/zone/clock skew/restart/rollback history apply the same blocks; byte comparison of roots, next-block parameters, stored diffs; plus the fork situation with an honest peer (blocks validated speculatively on the common ancestor by a node whose head is elsewhere must get the verdict they got at their builders' head)",
          "Seeded exploration: every block of every run is recomputed by 2-4 replicas whose node-local conditions are owned by the simulator (Go map order through a runtime seam, time.Local, skewed virtual clock, restart and rollback histories).", LEDGER_NOTE, "3 C01"),
  "C02": ("exploration", "deterministic simulation: seeded multi-replica ledger runs, adversarial mempool, honest proposal must validate+insert on every same-head replica",
          "Seeded exploration of simulated multi-replica ledger histories with the real ProposeBlock/ValidateBlock/AddBlock on every replica; a clean batch is evidence, not proof.", LEDGER_NOTE, "3 C02"),
